@@ -20,8 +20,10 @@ package netpoll
 import (
 	"context"
 	"errors"
+	"net"
 	"strings"
 	"sync"
+	"sync/atomic"
 	"syscall"
 	"time"
 	"unsafe"
@@ -42,6 +44,7 @@ type server struct {
 	opts        *options
 	onQuit      func(err error)
 	connections sync.Map // key=fd, value=connection
+	accepting   int32    // accepts in progress: a connection between accept and its entry in connections
 }
 
 // Run this server.
@@ -67,6 +70,9 @@ func (s *server) Close(ctx context.Context) error {
 	for {
 		activeConn := 0
 		vp(vpSrvClose, unsafe.Pointer(s), 0, 0)
+		// a connection that is being accepted right now is not tracked yet; it counts as active,
+		// otherwise nil could be returned while it goes on living (read before the sweep below)
+		activeConn += int(atomic.LoadInt32(&s.accepting))
 		s.connections.Range(func(key, value interface{}) bool {
 			conn, ok := value.(gracefulExit)
 			if !ok || conn.isIdle() {
@@ -103,11 +109,8 @@ func (s *server) Close(ctx context.Context) error {
 // OnRead implements FDOperator.
 func (s *server) OnRead(p Poll) error {
 	// accept socket
-	conn, err := s.ln.Accept()
+	_, err := s.accept()
 	if err == nil {
-		if conn != nil {
-			s.onAccept(conn.(Conn))
-		}
 		// EAGAIN | EWOULDBLOCK if conn and err both nil
 		return nil
 	}
@@ -129,14 +132,13 @@ func (s *server) OnRead(p Poll) error {
 				if retryTimeIndex > 0 {
 					time.Sleep(retryTimes[retryTimeIndex] * time.Millisecond)
 				}
-				conn, err := s.ln.Accept()
+				conn, err := s.accept()
 				if err == nil {
 					if conn == nil {
 						// recovery accept poll loop
 						s.operator.Control(PollReadable)
 						return
 					}
-					s.onAccept(conn.(Conn))
 					logger.Println("NETPOLL: re-accept conn success:", conn.RemoteAddr())
 					retryTimeIndex = 0
 					continue
@@ -159,17 +161,32 @@ func (s *server) OnRead(p Poll) error {
 	return err
 }
 
+// accept takes one connection from the listener and hands it to onAccept. From before the accept until the
+// connection is in s.connections it is counted in s.accepting, so that Close does not overlook it.
+func (s *server) accept() (net.Conn, error) {
+	atomic.AddInt32(&s.accepting, 1)
+	conn, err := s.ln.Accept()
+	if err != nil || conn == nil {
+		atomic.AddInt32(&s.accepting, -1)
+		return conn, err
+	}
+	s.onAccept(conn.(Conn))
+	return conn, nil
+}
+
 // OnHup implements FDOperator.
 func (s *server) OnHup(p Poll) error {
 	s.onQuit(errors.New("listener close"))
 	return nil
 }
 
+// onAccept is called by accept, which has counted the connection in s.accepting.
 func (s *server) onAccept(conn Conn) {
 	// store & register connection
 	nconn := new(connection)
 	nconn.init(conn, s.opts)
 	if !nconn.IsActive() {
+		atomic.AddInt32(&s.accepting, -1)
 		return
 	}
 	fd := conn.Fd()
@@ -180,6 +197,7 @@ func (s *server) onAccept(conn Conn) {
 	})
 	vp(vpSrvStore, unsafe.Pointer(s), int64(fd), 1)
 	s.connections.Store(fd, nconn)
+	atomic.AddInt32(&s.accepting, -1) // tracked from here on
 	// the connection may have been closed (its events are handled by another poller) before the
 	// untrack callback above was registered or before it was stored: it must not stay tracked for ever
 	if !nconn.IsActive() {
